@@ -296,6 +296,22 @@ func isBuiltinFunc(info *types.Info, fn ast.Expr, name string) bool {
 	return ok && obj.Name() == name
 }
 
+// isPkgFunc reports whether fn is a qualified identifier pkgName.funcName
+// whose qualifier denotes the imported package with the given path
+// (and not a variable, field or other package of that name).
+func isPkgFunc(info *types.Info, fn ast.Expr, pkgPath, funcName string) bool {
+	sel, ok := fn.(*ast.SelectorExpr)
+	if !ok || sel.Sel.Name != funcName {
+		return false
+	}
+	id, ok := sel.X.(*ast.Ident)
+	if !ok {
+		return false
+	}
+	pkg, ok := info.ObjectOf(id).(*types.PkgName)
+	return ok && pkg.Imported().Path() == pkgPath
+}
+
 // identOf returns identifier for x that can be used to obtain associated types.Object.
 // Returns nil for expressions that yield temporary results, like `f().field`.
 func identOf(x ast.Node) *ast.Ident {
